@@ -59,10 +59,19 @@ Definition text_frame_of (c : rcall) : tframe :=
 (* a request whose fields fit the wire: what the parsers can produce *)
 Definition item_ok (p : proto) (it : gitem) : Prop :=
   gi_opaque it < 4294967296 /\ match p with Text => text_key_ok (gi_key it) | Bin => True end.
+(* The text parser never produces a quiet request (no "noreply" support: TextReq.wf_text), and
+   the text responder has no quiet form of STORED: a quiet store in text would be answered. *)
 Definition req_wire_ok (p : proto) (r : req) : Prop :=
   req_opaque r < 4294967296 /\
   match r with
   | RGet items no _ | RGetE items no _ => no < 4294967296 /\ Forall (item_ok p) items
   | RGat k _ _ => match p with Text => False | Bin => True end
   | _ => True
-  end.
+  end /\
+  match p with Text => req_quiet r = false | Bin => True end.
+
+(* what a store can serve at [now] fits the wire fields of a reply: 32-bit flags, a body length
+   that fits the 32-bit total-body field together with the extras, a 32-bit remaining TTL *)
+Definition store_wire_ok (now : N) (s : store) : Prop :=
+  forall k e, live now s k = Some e ->
+    e_flags e < 4294967296 /\ len (e_data e) + 8 < 4294967296 /\ remaining now (e_dl e) < 4294967296.
